@@ -33,7 +33,7 @@ from .yp_generator import *
 import contextlib
 import click
 from antlr4.error.ErrorListener import ErrorListener
-from .errors import CompilerError, PrologSyntaxError
+from .errors import CompilerError, PrologSyntaxError, GeneratedCodeError
 
 class _RaisingErrorListener(ErrorListener):
     '''Turns the first lexer or parser error into an exception, instead of printing it
@@ -70,6 +70,14 @@ def _compile_prolog_from_stream(inp, ctx):
     code = compiler.compile_program(program)
     generator = YPPythonCodeGenerator(ctx)
     pythoncode = generator.generate(code)
+    # every goal and every non-variable head argument becomes a nested block, and nested
+    # terms become nested calls; Python limits both (20 nested blocks, about 100 levels of
+    # parentheses), so make sure the result can be loaded
+    try:
+        compile(pythoncode, filename or '<generated>', 'exec')
+    except (SyntaxError, ValueError, OverflowError, RecursionError, MemoryError) as e:
+        raise GeneratedCodeError(filename,
+                f'a clause is too long or too deeply nested for Python ({e})') from e
     return pythoncode
 
 class CompilerContext:
